@@ -896,3 +896,7 @@ mod tests {
         test_expectation(cursor, expectation, policy, 4);
     }
 }
+
+#[cfg(any(kani, rescrv_blue_verif))]
+#[path = "/verif/hk/sst/gc.rs"]
+mod verif_harness;
